@@ -15,7 +15,7 @@ Definition errs_ok (accept : bool) (errs : list perror) : Prop :=
 
 Definition CS : pcfg :=
   {| cInv := fun s => errs_ok (ps_accept s) (ps_errors s); cWeak := fun s => errs_ok (ps_accept s) (ps_errors s);
-     cRel := fun _ _ => True; cPanicOk := True |}.
+     cRel := fun _ _ => True; cPanicOk := True; cFuelOk := True |}.
 
 Lemma CS_rel : prel_ok CS.
 Proof. constructor; cbn; auto. Qed.
@@ -23,12 +23,12 @@ Proof. constructor; cbn; auto. Qed.
 Lemma errs_frame {A} (m : PM A) :
   (forall s a s', m s = POk (a, s') -> ps_accept s' = ps_accept s /\ ps_errors s' = ps_errors s) -> spec CS m.
 Proof.
-  intros Hm. apply post_partial; [exact I|]. cbn. intros s Hs a s' E. destruct (Hm _ _ _ E) as [-> ->]. auto.
+  intros Hm. apply post_partial; [exact I|exact I|]. cbn. intros s Hs a s' E. destruct (Hm _ _ _ E) as [-> ->]. auto.
 Qed.
 Lemma errs_step {A} (m : PM A) :
   (forall s a s', m s = POk (a, s') -> errs_ok (ps_accept s) (ps_errors s) -> errs_ok (ps_accept s') (ps_errors s')) ->
   spec CS m.
-Proof. intros Hm. apply post_partial; [exact I|]. cbn. intros s Hs a s' E. split; eauto. Qed.
+Proof. intros Hm. apply post_partial; [exact I|exact I|]. cbn. intros s Hs a s' E. split; eauto. Qed.
 
 Lemma lexer_error_effect_fields c d i s :
   ps_accept (p_lexer_error_effect c d i s) = match c with ELimit => false | ELex => ps_accept s end /\
@@ -128,7 +128,7 @@ Proof.
     intros [= <- <-]. auto.
 Qed.
 
-Definition CS_ok : pcfg_ok CS := atoms_cfg_ok CS CS_atoms.
+Definition CS_ok : pcfg_ok CS := atoms_cfg_ok CS CS_atoms I.
 
 Lemma type_entry_CS fuel : specR CS (g_type_entry fuel).
 Proof.
